@@ -40,17 +40,27 @@ def gen_case(streams, tier):
     rom = g.random() < 0.2
     covering = (not rom) and g.random() < 0.06
     if covering:
-        cfg = {'bw': 1, 'aw': 1, 'R': 1, 'W': 1, 'rom': None, 'init': {}, 'sparse': None}
+        cfg = {'bw': 1, 'aw': 1, 'R': 1, 'W': 1, 'rom': None, 'init': {}, 'sparse': None,
+               'variant': 'plain'}
     else:
         wide = (not rom) and g.random() < 0.08
-        aw = g.choice([65, 66, 70]) if wide else g.randint(1, 6)
+        mid = (not rom) and (not wide) and g.random() < 0.2
+        aw = g.choice([65, 66, 70]) if wide else (g.choice([9, 10, 12, 16, 32]) if mid
+                                                  else g.randint(1, 6))
         bw = g.choice([1, 2, 3, 7, 8, 8, 16, 31, 32, 33, 63, 64, 65, 70])
         cfg = {'bw': bw, 'aw': aw, 'R': g.randint(1, 3), 'W': 0 if rom else g.randint(1, 2),
-               'rom': None, 'init': {}, 'sparse': None}
+               'rom': None, 'init': {}, 'sparse': None, 'variant': 'plain'}
         if wide:
             base = g.getrandbits(aw)
             cfg['sparse'] = sorted({base, base ^ (1 << 64), g.getrandbits(aw), 0, mask(aw),
                                     g.getrandbits(63)})
+        elif mid:
+            # addresses that fall into one bucket of a 256-bucket hash map, and neighbours
+            base = g.getrandbits(8)
+            cfg['sparse'] = sorted({base, base + 256, (base + 512) & mask(aw), base ^ 1, 0,
+                                    mask(aw), g.getrandbits(aw)})
+        if not rom and not covering:
+            cfg['variant'] = g.choice(['plain', 'plain', 'registered', 'conditional'])
         if rom:
             kind = g.choice(['list', 'dict', 'func'])
             size = 1 << aw
@@ -76,6 +86,8 @@ def gen_case(streams, tier):
         labels.append('synthopt')
     if cfg['aw'] <= 6 and g.random() < 0.4:
         labels.append('verilog')
+    if cfg['aw'] > 8 and 'compiled' not in labels and g.random() < 0.5:
+        labels.append('compiled')
     i = streams['inputs']
     if covering:
         tape = covering_tape()
@@ -88,7 +100,8 @@ def gen_case(streams, tier):
         w = cfg['bw'] if port == 'wd0' else cfg['aw']
         faults.append({'kind': 'reject_step', 'at': f.randrange(len(tape)), 'wire': port,
                        'value': world.bad_value(f, w), 'replica': None})
-    if cfg['W'] and 'compiled' not in labels and 'verilog' not in labels and f.random() < 0.4:
+    if cfg['W'] and cfg.get('variant', 'plain') == 'plain' and 'compiled' not in labels \
+            and 'verilog' not in labels and f.random() < 0.4:
         for _ in range(f.randint(1, 2)):
             faults.append({'kind': 'storage_poke', 'at': f.randrange(len(tape)),
                            'addr': _addr(f, cfg), 'value': gen.rand_val(f, cfg['bw'])})
@@ -134,6 +147,8 @@ def gen_tape(rng, cfg, n):
             c['wa%d' % w] = a
             c['wd%d' % w] = gen.rand_val(rng, cfg['bw'])
             c['we%d' % w] = en
+            if cfg.get('variant') == 'conditional':
+                c['c%d' % w] = 1 if rng.random() < 0.6 else 0
         for r_ in range(cfg['R']):
             r = rng.random()
             if r < 0.4 and cfg['W']:
@@ -176,11 +191,30 @@ def build(cfg):
         else:
             mem = pyrtl.MemBlock(cfg['bw'], cfg['aw'], name='mem', max_read_ports=None,
                                  max_write_ports=None)
+        variant = cfg.get('variant', 'plain')
+        ports = []
         for w in range(cfg['W']):
             wa = pyrtl.Input(cfg['aw'], 'wa%d' % w)
             wd = pyrtl.Input(cfg['bw'], 'wd%d' % w)
             we = pyrtl.Input(1, 'we%d' % w)
-            mem[wa] <<= pyrtl.MemBlock.EnabledWrite(wd, we)
+            if variant == 'registered':
+                # the write port is fed straight from registers (one cycle after the inputs)
+                ra_, rd_, re_ = (pyrtl.Register(cfg['aw'], 'wa_r%d' % w),
+                                 pyrtl.Register(cfg['bw'], 'wd_r%d' % w),
+                                 pyrtl.Register(1, 'we_r%d' % w))
+                ra_.next <<= wa
+                rd_.next <<= wd
+                re_.next <<= we
+                mem[ra_] <<= pyrtl.MemBlock.EnabledWrite(rd_, re_)
+            elif variant == 'conditional':
+                ports.append((pyrtl.Input(1, 'c%d' % w), wa, wd, we))
+            else:
+                mem[wa] <<= pyrtl.MemBlock.EnabledWrite(wd, we)
+        if ports:
+            with pyrtl.conditional_assignment:
+                for c, wa, wd, we in ports:
+                    with c:
+                        mem[wa] |= pyrtl.MemBlock.EnabledWrite(wd, we)
         for r in range(cfg['R']):
             ra = pyrtl.Input(cfg['aw'], 'ra%d' % r)
             o = pyrtl.Output(cfg['bw'], 'rd%d' % r)
@@ -194,15 +228,31 @@ class Model(object):
         self.cfg = cfg
         self.rom = rom_func(cfg['rom'], cfg['bw']) if cfg['rom'] else None
         self.mem = {int(a): v for a, v in cfg['init'].items()}
+        self.prev = None
 
     def step(self, cyc):
         out = {}
         for r in range(self.cfg['R']):
             a = cyc['ra%d' % r]
             out['rd%d' % r] = self.rom(a) if self.rom else self.mem.get(a, 0)
-        for w in range(self.cfg['W']):
-            if cyc['we%d' % w]:
-                self.mem[cyc['wa%d' % w]] = cyc['wd%d' % w]
+        variant = self.cfg.get('variant', 'plain')
+        if variant == 'registered':
+            src = self.prev          # the port registers hold last cycle's inputs (0 at reset)
+            if src is not None:
+                for w in range(self.cfg['W']):
+                    if src['we%d' % w]:
+                        self.mem[src['wa%d' % w]] = src['wd%d' % w]
+            self.prev = cyc
+        elif variant == 'conditional':
+            for w in range(self.cfg['W']):
+                if cyc['c%d' % w]:           # first branch whose predicate holds
+                    if cyc['we%d' % w]:
+                        self.mem[cyc['wa%d' % w]] = cyc['wd%d' % w]
+                    break
+        else:
+            for w in range(self.cfg['W']):
+                if cyc['we%d' % w]:
+                    self.mem[cyc['wa%d' % w]] = cyc['wd%d' % w]
         return out
 
 
@@ -362,6 +412,9 @@ def run(case, res):
         res.probes.hit('replica:' + r.label)
     if case.get('covering'):
         res.probes.hit('covering_walk_2x1_exhaustive')
+    res.probes.hit('variant:' + cfg.get('variant', 'plain'))
+    if 8 < cfg['aw'] <= 64:
+        res.probes.hit('aw_9_to_64')
     if cfg['rom']:
         res.probes.hit('rom:' + cfg['rom']['kind'])
     res.shape = hashlib.sha1(repr([cfg['bw'], cfg['aw'], cfg['R'], cfg['W'], bool(cfg['rom']),
